@@ -128,9 +128,26 @@ pub struct Calls {
     pub rf: Option<Range<usize>>,
 }
 
-fn calls(pc: &[PatternChar], cfg: Cfg, text: &str) -> Calls {
+/// Which public constructor compiles the pattern.
+#[derive(Clone, Copy, Debug, PartialEq, Eq)]
+enum Entry {
+    ParseWithConfig,
+    FromAstAndConfig,
+    /// `Pattern::parse` (default configuration only)
+    Parse,
+    /// `Pattern::from_ast` (default configuration only)
+    FromAst,
+}
+
+fn calls(entry: Entry, pc: &[PatternChar], cfg: Cfg, text: &str) -> Calls {
     let config = cfg.config();
-    match Pattern::parse_with_config(pc.iter().copied(), config) {
+    let compiled = match entry {
+        Entry::ParseWithConfig => Pattern::parse_with_config(pc.iter().copied(), config),
+        Entry::FromAstAndConfig => Pattern::from_ast_and_config(&Ast::new(pc.iter().copied()), config),
+        Entry::Parse => Pattern::parse(pc.iter().copied()),
+        Entry::FromAst => Pattern::from_ast(&Ast::new(pc.iter().copied())),
+    };
+    match compiled {
         Err(e) => {
             let (k, n) = error_name(&e);
             Calls { e: k.to_string(), en: n, cf: true, lit: false, lv: String::new(), il: false, iv: String::new(),
@@ -178,13 +195,22 @@ pub fn observe(mode: Mode, c: &[String], l: &[bool], cfg: Cfg, text: &str) -> Va
         "ab": cfg.ab, "ae": cfg.ae, "sh": cfg.sh, "lp": cfg.lp, "ci": cfg.ci,
         "pcc": [], "pcl": [], "pn": true, "e": "", "en": [], "cf": true,
         "lit": false, "lv": [], "il": false, "iv": [], "ak": [], "ac": [],
-        "m": false, "f": [-1, -1], "rf": [-1, -1], "bd": true, "d": true, "fa": -1, "ra": -1, "sf": [-2, -2],
+        "m": false, "f": [-1, -1], "rf": [-1, -1], "bd": true, "d": true, "rx": true, "fa": -1, "ra": -1, "sf": [-2, -2],
     });
     let r = catch(|| {
         let pc = pattern_chars(mode, c, l);
         let ast = Ast::new(pc.iter().copied());
-        let a = calls(&pc, cfg, text);
-        let b = calls(&pc, cfg, text);
+        let a = calls(Entry::ParseWithConfig, &pc, cfg, text);
+        // the same again, and through the other public constructors
+        let mut same = a == calls(Entry::ParseWithConfig, &pc, cfg, text) && a == calls(Entry::FromAstAndConfig, &pc, cfg, text);
+        if cfg.config() == Config::default() {
+            same = same && a == calls(Entry::Parse, &pc, cfg, text) && a == calls(Entry::FromAst, &pc, cfg, text);
+        }
+        // Ast::to_regex / fmt_regex: "Only the anchor_begin and anchor_end options in config affect the results."
+        let anchors_only = Cfg { sh: false, lp: false, ci: false, ..cfg };
+        let mut written = String::new();
+        let wrote = ast.fmt_regex(&cfg.config(), &mut written).map(|()| written);
+        let rx = ast.to_regex(&cfg.config()) == ast.to_regex(&anchors_only.config()) && wrote == ast.to_regex(&cfg.config());
         let mut fa = -1;
         let mut ra = -1;
         let mut sf: Option<Option<Range<usize>>> = None;
@@ -201,9 +227,9 @@ pub fn observe(mode: Mode, c: &[String], l: &[bool], cfg: Cfg, text: &str) -> Va
                 ra = anchored_match(&pc, cfg, &text[r.clone()]);
             }
         }
-        (pc, ast, a, b, fa, ra, sf)
+        (pc, ast, a, same, rx, fa, ra, sf)
     });
-    let Ok((pc, ast, a, b, fa, ra, sf)) = r else {
+    let Ok((pc, ast, a, same, rx, fa, ra, sf)) = r else {
         return rec;
     };
     let o = rec.as_object_mut().unwrap();
@@ -232,7 +258,8 @@ pub fn observe(mode: Mode, c: &[String], l: &[bool], cfg: Cfg, text: &str) -> Va
     o.insert("ak".into(), json!(ak));
     o.insert("ac".into(), json!(ac));
     o.insert("m".into(), json!(a.m));
-    o.insert("d".into(), json!(a == b));
+    o.insert("d".into(), json!(same));
+    o.insert("rx".into(), json!(rx));
     let mut bd = true;
     let mut put = |o: &mut serde_json::Map<String, Value>, k: &str, r: &Option<Range<usize>>, none: (i64, i64)| match r {
         None => {
